@@ -76,12 +76,12 @@ class Pauli(object):
         return self + (-other)
 
     def __matmul__(self, other):
-        if isinstance(other, Pauli):
+        if isinstance(other, (PauliMonomial, PauliPolynomial)):
+            return self.as_polynomial() @ other.as_polynomial()
+        elif isinstance(other, Pauli):
             p = (self.p + other.p + ipow(self.g, other.g)) % 4
             g = (self.g + other.g) % 2
             return Pauli(g, p)
-        elif isinstance(other, (PauliMonomial, PauliPolynomial)):
-            return self.as_polynomial() @ other.as_polynomial()
         else: 
             raise NotImplementedError('matmul is not implemented for between {} and {}'.format(type(self).__name__, type(other).__name__))
 
